@@ -90,6 +90,14 @@ func imgKey(path string, idx int) string {
 // runWorld mounts a world (empty, or on a crash image), runs recovery if it
 // is an image, runs the plan's statements and then explores captured images.
 func (r *runner) runWorld(p *Plan, m *Model, img *Image, path string, chain []map[string]string) {
+	if img == nil {
+		r.env.Journal("|main")
+		if cls, ok := r.env.Fatal["|main"]; ok {
+			r.violate(&Violation{Prop: r.plan.Prop, Oracle: "O-live", Features: map[string]string{"how": "fatal", "class": cls, "where": "main-timeline"},
+				Detail: "the main timeline killed or hung the process: " + cls, StmtIdx: -1}, path)
+			return
+		}
+	}
 	dir := filepath.Join(r.env.Scratch, fmt.Sprintf("world%d", r.nWorld))
 	r.nWorld++
 	if err := os.MkdirAll(dir, 0755); err != nil {
@@ -642,6 +650,11 @@ func (t *timeline) run() {
 			break
 		}
 		if w.Viol != nil {
+			break
+		}
+		if w.SessionLocks() != 0 {
+			t.violate("O-live", fmt.Sprintf("statement %d (%s) returned while still holding the store lock: every later flush, CREATE TABLE or Close blocks forever", i, describe(s)),
+				map[string]string{"how": "lock-leak", "stmt": s.Kind}, i)
 			break
 		}
 		if w.Stats["lru_refuse"] > 0 && w.Viol == nil {
